@@ -542,7 +542,7 @@ def gen_output(rng, comma: bool) -> dict:
         'out': out, 'inst_out': rname(rng, 1, 6, 'abc_1') if rng.random() < 0.15 else None,
         'target': field(), 'inp': inp, 'inst_in': rname(rng, 1, 6, 'abc_1') if rng.random() < 0.15 else None,
         'params': field() + ('\n' + field() if rng.random() < 0.05 else ''),
-        'delay': rng.choice((0.0, 0.5, 1.0, 2.25, 10.0, 0.01, 123.0)), 'times': rng.choice((-1, -1, 1, 3)),
+        'delay': rng.choice((0.0, 0.5, 1.0, 2.25, 10.0, 0.01, 123.0, 0.125, 0.001, 1234.5, 99999.5, 1e-05)), 'times': rng.choice((-1, -1, 1, 3)),
         'comma': comma,
     }
 
